@@ -107,6 +107,10 @@ func (stageComp) Corpus() [][]string {
 		// crash images of a complete reception + pipeline
 		{"base ?", "recover 0", "prepare a 3 0", "cut 2 recv a - - 3 b1.2.3 0 3 1.2.3 0", "observe", "recover 0", "settle 0", "observe"},
 		{"base ?", "recover 0", "prepare a 3 0", "recv a - - 3 b1.2.3 0 3 1.2.3 0", "process a 0", "cut 2 finh a 0", "observe", "recover 0", "settle 0", "observe", "status a 0 0"},
+		// a retransmission of the whole file enters Receive while the original is still in flight, and finishes after the
+		// original was validated and delivered: recognised as a duplicate, answered "passed", never delivered again
+		{"base ?", "recover 0", "prepare a 2 0", "ropen 1 a - - 2 b1.2 0 2", "recv a - - 2 b1.2 0 2 1.2 0", "settle 0", "observe", "rwrite 1 1.2 0", "settle 0", "observe",
+			"status a 0 0", "consume a", "prepare a 2 0", "recv a - - 2 b1.2 0 2 1.2 0", "settle 0", "observe", "status a 0 0"},
 		// a held file (predecessor not delivered) arrives a second time, then the receiver restarts: it must still be held
 		{"base ?", "recover 0", "prepare b 2 0", "recv b - a 2 b1.2 0 2 1.2 0", "settle 0", "status b 0 0", "prepare b 2 0", "recv b - a 2 b1.2 0 2 1.2 0",
 			"observe", "crash", "recover 0", "settle 0", "observe", "status b 0 0", "prepare a 1 0", "recv a - - 1 b7 0 1 7 0", "settle 0", "observe"},
